@@ -1,9 +1,42 @@
 package main
 
+import (
+	"os"
+	"path/filepath"
+	"sort"
+	"strings"
+)
+
 // Behaviour-preserving edits: the property still holds after each of them, so
 // the rule named must report nothing. They guard against rules that match a
 // spelling rather than a structure.
+// smallHarmless: the small behaviour-preserving edits written by independent
+// agents, eight per property, each touching the code that implements the
+// property (refactors/small/<property>/h<k>.diff, with the agent's NOTES.md).
+func smallHarmless() []mutant {
+	var out []mutant
+	ms, _ := filepath.Glob(filepath.Join(verifDir, "refactors", "small", "*", "h*.diff"))
+	sort.Strings(ms)
+	for _, m := range ms {
+		prop := filepath.Base(filepath.Dir(m))
+		rel, err := filepath.Rel(verifDir, m)
+		if err != nil {
+			continue
+		}
+		id := "h-small-" + prop + "-" + strings.TrimSuffix(filepath.Base(m), ".diff")
+		out = append(out, mutant{Harmless: true, ID: id, Prop: prop, Patch: rel})
+		if b, err := os.ReadFile(m); err == nil && (strings.Contains(string(b), "faiss_vector") || strings.Contains(string(b), "section_faiss")) {
+			out = append(out, mutant{Harmless: true, ID: id + "-vectors", Prop: prop, Patch: rel, Vectors: true})
+		}
+	}
+	return out
+}
+
 func harmlessTable() []mutant {
+	return append(fixedHarmless(), smallHarmless()...)
+}
+
+func fixedHarmless() []mutant {
 	return []mutant{
 		{Harmless: true, ID: "h-chunkrule-respelled", Prop: "C09", Rule: "R30",
 			Edits: []edit{{File: "chunk.go", Old: "\tcase chunkMode <= 1024:\n", New: "\tcase chunkMode < 1025:\n"},
@@ -123,5 +156,7 @@ func harmlessTable() []mutant {
 			Edits: []edit{{File: "merge.go", Old: "\t\t\tfor i := 0; i < len(fieldsInv); i++ {\n\t\t\t\tvals[i] = vals[i][:0]", New: "\t\t\tfor i := range vals {\n\t\t\t\tvals[i] = vals[i][:0]"}}},
 		{Harmless: true, ID: "h-recycled-field-all-truncated", Prop: "C02", Rule: "R10",
 			Edits: []edit{{File: "new.go", Old: "\t\tfor fieldID := range docStoredFields { // reset for next doc\n\t\t\tdelete(docStoredFields, fieldID)\n\t\t}", New: "\t\tfor fieldID, isf := range docStoredFields { // reset for next doc\n\t\t\tif len(isf.vals) == 0 {\n\t\t\t\tdelete(docStoredFields, fieldID)\n\t\t\t\tcontinue\n\t\t\t}\n\t\t\tisf.vals = isf.vals[:0]\n\t\t\tisf.typs = isf.typs[:0]\n\t\t\tisf.arrayposs = isf.arrayposs[:0]\n\t\t\tdocStoredFields[fieldID] = isf\n\t\t}"}}},
+		{Harmless: true, ID: "h-full-selectivity-operands-swapped", Prop: "C14", Rule: "R23", Vectors: true,
+			Edits: []edit{{File: "faiss_vector_posting.go", Old: "\t\t\t\tif len(eligibleDocIDs) == int(sb.numDocs) {", New: "\t\t\t\tif allEligible := uint64(len(eligibleDocIDs)) == sb.numDocs; allEligible {"}}},
 	}
 }
